@@ -260,22 +260,59 @@ def rule_index_input(facts, rid):
                 binds.setdefault(b["id"], (b.get("ty"), None))
         pb = {i for ids in pat_binds(a["pat"]).values() for i in ids}
         n_idx = 0
-        for n in find(a["body"], lambda n: n.get("k") == "MethodCall" and n["m"]["name"] == "run" and (n["m"].get("def") or "").startswith("jaq_core::filter::")):
-            rid_ = (strip(n["recv"]).get("path") or {}).get("id")
-            if rid_ is None or rid_ in pb:
-                continue
-            n_idx += 1
-            roots, st, seen = set(), [x["path"]["id"] for x in find(n["args"], lambda y: y.get("k") == "Path" and y["path"].get("id") is not None)], set()
+
+        def roots_of(exprs, env):
+            """bindings without initialiser (parameters of the function or of closures) that the expressions are built from"""
+            roots, st, seen = set(), [x["path"]["id"] for x in find(exprs, lambda y: y.get("k") == "Path" and y["path"].get("id") is not None)], set()
             while st:
                 i = st.pop()
                 if i in seen:
                     continue
                 seen.add(i)
-                ty, init = binds.get(i, (None, None))
+                ty, init = env.get(i, (None, None))
                 if init is None:
                     roots.add((i, ty or "?"))
                     continue
                 st += [x["path"]["id"] for x in find(init, lambda y: y.get("k") == "Path" and y["path"].get("id") is not None)]
+            return roots
+
+        def env_of(fn_params, body):
+            env = {}
+            for b_ in find(fn_params, lambda n: n.get("k") == "Bind"):
+                env[b_["id"]] = (b_.get("ty"), None)
+            for l_ in find(body, lambda n: n.get("k") == "Let"):
+                for b_ in find(l_["pat"], lambda n: n.get("k") == "Bind"):
+                    env[b_["id"]] = (b_.get("ty"), l_.get("init"))
+            for c_ in find(body, lambda n: n.get("k") == "Closure"):
+                for b_ in find(c_.get("params", []), lambda n: n.get("k") == "Bind"):
+                    env.setdefault(b_["id"], (b_.get("ty"), None))
+            return env
+
+        def index_runs(body, bound):
+            return [n for n in find(body, lambda n: n.get("k") == "MethodCall" and n["m"]["name"] == "run" and (n["m"].get("def") or "").startswith("jaq_core::filter::"))
+                    if (strip(n["recv"]).get("path") or {}).get("id") is not None and (strip(n["recv"]).get("path") or {}).get("id") not in bound]
+        sites = [(n, roots_of(n["args"], binds)) for n in index_runs(a["body"], pb)]
+        # index filters run inside a first-party helper that the arm calls (e.g. `path_indices(path, &cv)`): the helper's
+        # parameters are traced on through the arguments of the call
+        for call in find(a["body"], lambda n: n.get("k") == "Call" and ((strip(n["f"]).get("path") or {}).get("def") or "").startswith("jaq_core::filter::")):
+            hf = facts.hir_fn(strip(call["f"])["path"]["def"])
+            if hf is None:
+                continue
+            henv = env_of(hf["params"], hf["body"])
+            pids = [[b_["id"] for b_ in find(p_, lambda n: n.get("k") == "Bind")] for p_ in hf["params"]]
+            for n in index_runs(hf["body"], set()):
+                rs = set()
+                for i, ty in roots_of(n["args"], henv):
+                    pos = [k for k, ids in enumerate(pids) if i in ids]
+                    if pos and pos[0] < len(call["args"]):
+                        rs |= roots_of([call["args"][pos[0]]], binds)
+                    elif not pos and i == (strip(n["recv"]).get("path") or {}).get("id"):
+                        continue
+                    else:
+                        rs.add((i, ty))
+                sites.append((n, rs))
+        for n, roots in sites:
+            n_idx += 1
             bad = sorted(t for i, t in roots if t != "?" and not re.match(r"^&?\(?jaq_core::filter::Ctx<", t))
             r.examined((mode, n["sp"]), True, {"evaluator": mode, "index_filter_argument_built_from": sorted(t[:50] for i, t in roots)})
             if bad:
